@@ -692,7 +692,7 @@ def _fuzz_stage(col, cfg):
             os.makedirs(d)
         seeds = os.path.join(VERIF, "fuzz", "corpus_c17")
         env = dict(os.environ)
-        env["PYTHONPATH"] = os.pathsep.join([REPO, VERIF, os.path.join(VERIF, ".deps")])
+        env["PYTHONPATH"] = os.pathsep.join([REPO, VERIF, os.path.join(VERIF, ".deps"), "/verif/.deps"])   # second entry: snapshot runs (vp run) share the installed copy
         env["PYTHONHASHSEED"] = "0"
         env["C17_FUZZ_OUT"] = outdir
         runs = int(cfg["fuzz_runs"]) // max(1, col.nshards)
